@@ -176,6 +176,7 @@ Proof.
     destruct (fold_add_event_frame (idx s) s) as (A & _). destruct (bug_clear c); sproj; assumption.
   - unfold resize in H. destruct (evict_oracle_frame _ _ _ _ _ H) as (Har & _). exists []. rewrite app_nil_r. exact Har.
   - unfold evict_all in H. destruct (evict_oracle_frame _ _ _ _ _ H) as (Har & _). exists []. rewrite app_nil_r. exact Har.
+  - unfold flush in H. destruct (flush_oracle_frame _ _ _ _ H) as (Har & _). exists []. rewrite app_nil_r. exact Har.
   - inversion H; subst. exists []. rewrite app_nil_r. unfold clone. destruct (hlookup h (handles s)); reflexivity.
   - inversion H; subst. exists []. rewrite app_nil_r. apply (proj1 (drop_frame c s h)).
 Qed.
@@ -271,6 +272,8 @@ Proof.
     rewrite Hpin. assumption.
   - left. unfold evict_all in H. destruct (evict_oracle_frame _ _ _ _ _ H) as (_ & _ & _ & _ & Hpin & _).
     rewrite Hpin. assumption.
+  - left. unfold flush in H. destruct (flush_oracle_frame _ _ _ _ H) as (_ & _ & _ & _ & Hpin & _).
+    rewrite Hpin. assumption.
   - left. inversion H; subst. unfold clone. destruct (hlookup h (handles s)); [|assumption]. sproj. assumption.
   - inversion H; subst. rewrite drop_unfold.
     destruct (hlookup h (handles s)) as [j|]; [|left; assumption]. cbv zeta.
@@ -357,7 +360,7 @@ Proof.
     by (intros; eapply Inv_step; eauto).
   destruct o; cbn [cstep]; intros H.
   1-5: (eapply upd_opt_Forall; [exact HI| |exact H]; intros s s' Hs Hf; cbv beta in Hf; eapply Hstep; eauto).
-  1-3: (eapply map_opt_from_Forall; [exact HI| |exact H]; cbv beta; intros j s s' Hs Hf; eapply Hstep; eauto).
+  1-4: (eapply map_opt_from_Forall; [exact HI| |exact H]; cbv beta; intros j s s' Hs Hf; eapply Hstep; eauto).
   - eapply map_opt_from_Forall; [exact HI| |exact H]. cbv beta. intros j s s' Hs.
     destruct (has_handle h s); [intros Hf; eapply Hstep; eauto|intros Hf; inversion Hf; subst; assumption].
   - eapply map_opt_from_Forall; [exact HI| |exact H]. cbv beta. intros j s s' Hs.
